@@ -5,11 +5,14 @@
 //	              * the offset formulas of rowFramerBase.Next / NewFramer (window_framer.go, go/ast)
 //	              * the NULL comparison table of the number type used by the RANGE framer (run time)
 //	              * the default framer of every window function with and without ORDER BY (run time, %T)
+//	              * aliasing of the aggregation buffers on shared *apd.Decimal inputs (run time, dec.go)
 //	c08 run       four streams, all compared with the Lean Impl model and the Lean Spec (drv_c08):
 //	              rowsf   the real ROWS framers driven directly (NewFramer/Next), exhaustive small table
 //	              rangef  the real RANGE framers driven directly over sorted key columns, exhaustive
 //	              win     SELECT id, F OVER (…) FROM t on the engine (random tables and window specs)
 //	              grp     SELECT [p,] F(x) FROM t [GROUP BY p] on the engine (aggregation buffers)
+//	              dec     scripts of SELECT [p,] F1(d),…,Fk(d) FROM t [GROUP BY p] over a DECIMAL column, each
+//	                      followed by a dump of the stored column (dec.go)
 //	c08 sql       run the statements on stdin on a fresh engine (manual replay of witnesses)
 package main
 
@@ -485,6 +488,13 @@ func extract(a hx.ExtractArgs) error {
 		rows = append(rows, fmt.Sprintf("  (%s, %s, %s)", hx.LeanString(n), hx.LeanString(tn[0]), hx.LeanString(tn[1])))
 	}
 	lf.Raw("def defaultFramers : List (String × String × String) := [\n" + strings.Join(rows, ",\n") + "\n]\n")
+
+	// (5) aliasing behaviour of the aggregation buffers on shared *apd.Decimal objects (dec.go)
+	alias, err := aliasProbe()
+	if err != nil {
+		return err
+	}
+	lf.Raw(alias)
 	return lf.Write(a.Out)
 }
 
@@ -1010,6 +1020,9 @@ func run(a hx.RunArgs) error {
 	}
 	ntile2Case(ds, false, 4, 2)
 	ntile2Case(ds, true, 2, 3)
+
+	// ---- dec: scripts of read-only aggregate statements over a DECIMAL column (own random stream)
+	runDec(a, out)
 
 	// ---- rowsf: exhaustive
 	var los, his []bound
